@@ -198,6 +198,11 @@ def scenarios(tier):
                     results=res)
                 bound = None if n <= 2 else (1 if quick else 3)
                 jobs.append((scn, bound, 40 if quick else 900, 1))
+                if n == 2 and (conc in (None, 1, 2) or not quick):
+                    # item completions overlapping inside their transactions
+                    # (the named lock of the with-items task matters here)
+                    jobs.append((common.variant(scn, '/overlap', rp=True),
+                                 1 if quick else 2, 40 if quick else 900, 1))
                 if n == 2 and (conc in (None, 1) or not quick):
                     # keyed completion jobs over the real DefaultScheduler
                     jobs.append((common.variant(
